@@ -393,6 +393,11 @@ struct World
 		{
 			bool const same_ep = u.binding >= 0 && bindings[std::size_t(u.binding)].ep == d.dst;
 			bool const own_earlier = d.binding_at_send >= 0 && bindings[std::size_t(d.binding_at_send)].sock == u.id;
+			std::string const bkey = own_earlier ? "datagram-survived-close" : same_ep ? "delivered-to-later-binding" : "delivered-to-wrong-socket";
+			// "datagrams addressed to an endpoint never reach a socket that no longer holds that binding" is C11's sentence too
+			R().violation("C11", "datagram-reached-socket-not-holding-binding:" + bkey
+				, who + fmt(": got datagram %" PRIu64 " sent at %" PRId64 " to %s:%u while %s", d.id, d.t_send, d.dst.address().to_string().c_str(), unsigned(d.dst.port())
+					, d.binding_at_send < 0 ? "nobody held that endpoint" : own_earlier ? "an earlier binding of this very socket held it (closed and re-opened since)" : "another binding held it"));
 			R().violation("C08", own_earlier ? "datagram-survived-close" : same_ep ? "delivered-to-later-binding" : "delivered-to-wrong-socket"
 				, who + fmt(": got datagram %" PRIu64 " sent at %" PRId64 " to %s:%u, which %s", d.id, d.t_send, d.dst.address().to_string().c_str(), unsigned(d.dst.port())
 					, d.binding_at_send < 0 ? "nobody held when it was sent" : own_earlier ? "this socket held then, but it has been closed (and re-opened) since: the datagram outlived the close"
